@@ -27,9 +27,10 @@ import (
 type Case struct {
 	ID   int      `json:"id"`
 	Kind string   `json:"kind"`          // queue | deque | qshared | stress
+	Opt  string   `json:"opt,omitempty"` // queue: "" unlimited | h1 h2 h3 (hard limit) | quota (hard 3, soft 1, credit 1)
 	Init int      `json:"init"`          // items added/pushed (at the back) before the schedule
 	Vars []string `json:"vars"`          // one per iterator; queue: "q"; deque: fwd rev fwdb revb
-	Acts []string `json:"acts"`          // queue: A R C I<i> X<i>; deque: PB PF OF OB C I<i> X<i>
+	Acts []string `json:"acts"`          // queue: A R C I<i> X<i> W<i>; deque: PB PF OF OB C I<i> X<i> W<i> (W = cancel between ctx check and cond.Wait)
 	Fin  string   `json:"fin,omitempty"` // close | cancel: how still-blocked iterators are released at the end
 	Sub  int      `json:"sub,omitempty"` // qshared: 0 = capacity waiter parks first, 1 = iterator parks first
 	Seed uint64   `json:"seed,omitempty"`
@@ -133,6 +134,51 @@ func (e *exec) cancelIter(i int) {
 	e.afterOp()
 }
 
+// cancelInWindow lets iterator i run until it has decided to park (it is stopped at the yield point
+// `pubsub.wait.before-cond-wait`, i.e. after its ctx.Done() check and before cond.Wait, holding the
+// container's mutex), cancels its context there, waits until the cancellation watcher has either blocked on
+// the mutex or finished, and releases the iterator: it must return the context error.
+func (e *exec) cancelInWindow(i int) {
+	c := e.ctls[i]
+	act := "go"
+	switch e.phase[i] {
+	case phReady:
+		act = "call"
+		c.holdPrepark.Store(true)
+		c.call()
+	case phWindow:
+		c.holdPrepark.Store(true)
+		c.release()
+	default:
+		return
+	}
+	ob := c.settle()
+	if ob.Kind == "window" {
+		e.emit(act, i, 0, ob)
+		act = "go"
+		c.release()
+		ob = c.settle()
+	}
+	if ob.Kind != "prepark" {
+		c.holdPrepark.Store(false)
+		e.emit(act, i, 0, ob)
+		e.setPhase(i, ob)
+		return
+	}
+	e.emit(act, i, 0, Obs{Kind: "parked"}) // it has decided to park
+	c.cancel()
+	e.emit("cancel", i, 0, Obs{Kind: "inwindow"})
+	if helpersSettled() < 0 {
+		e.emit("note", i, 0, Obs{Kind: "other", Msg: "cancellation watcher neither finished nor blocked within 10s"})
+	}
+	c.holdPrepark.Store(false)
+	c.release()
+	ob = c.mustReturn()
+	e.emit("go", i, 0, ob)
+	e.setPhase(i, ob)
+	e.afterOp()
+}
+
 // drain calls Next until it stops yielding (bounded).
 func (e *exec) drain(i int, bound int) {
 	for k := 0; k < bound && e.phase[i] != phDead; k++ {
@@ -159,19 +205,33 @@ func (e *exec) stopAll() {
 	}
 }
 
+func newQueue(c Case) *pubsub.Queue[int64] {
+	var opts pubsub.QueueOptions
+	switch {
+	case c.Kind == "qshared":
+		opts = pubsub.QueueOptions{HardLimit: 4, SoftQuota: 1, BurstCredit: 3}
+	case c.Opt == "h1":
+		opts = pubsub.QueueOptions{HardLimit: 1}
+	case c.Opt == "h2":
+		opts = pubsub.QueueOptions{HardLimit: 2}
+	case c.Opt == "h3":
+		opts = pubsub.QueueOptions{HardLimit: 3}
+	case c.Opt == "quota":
+		opts = pubsub.QueueOptions{HardLimit: 3, SoftQuota: 1, BurstCredit: 1}
+	default:
+		return pubsub.NewUnlimitedQueue[int64]()
+	}
+	q, err := pubsub.NewQueue[int64](opts)
+	if err != nil {
+		panic(err)
+	}
+	return q
+}
+
 func idx(code string) int { n, _ := strconv.Atoi(code[1:]); return n }
 
 func runQueue(c Case) []Step {
-	var q *pubsub.Queue[int64]
-	if c.Kind == "qshared" {
-		var err error
-		q, err = pubsub.NewQueue[int64](pubsub.QueueOptions{HardLimit: 4, SoftQuota: 1, BurstCredit: 3})
-		if err != nil {
-			panic(err)
-		}
-	} else {
-		q = pubsub.NewUnlimitedQueue[int64]()
-	}
+	q := newQueue(c)
 	e := &exec{}
 	for i := range c.Vars {
 		e.ctls = append(e.ctls, newCtl(i, q.Producer()))
@@ -180,13 +240,13 @@ func runQueue(c Case) []Step {
 	defer e.stopAll()
 	next := int64(0)
 	add := func() {
-		v := next + 1
+		// every attempt gets its own value, so a rejected one is recognisable if it ever shows up
+		next++
+		v := next
 		err := q.Add(v)
 		ob := Obs{Kind: "ok"}
 		if err != nil {
 			ob = classify(0, err)
-		} else {
-			next = v
 		}
 		e.emit("add", 0, v, ob)
 		e.afterOp()
@@ -251,6 +311,10 @@ func runQueue(c Case) []Step {
 			if i := idx(a); i < len(e.ctls) {
 				e.cancelIter(i)
 			}
+		case 'W':
+			if i := idx(a); i < len(e.ctls) {
+				e.cancelInWindow(i)
+			}
 		}
 	}
 	// ---- final phase: let everybody reach a stable point, then release and drain
@@ -299,13 +363,18 @@ type fail struct {
 
 func queueOracle(c Case, steps []Step) *fail {
 	n := len(c.Vars)
+	// positions: the k-th ACCEPTED value has position k (1-based); all bookkeeping is over positions
 	nAdded, nRemoved := int64(0), int64(0)
+	posOf := map[int64]int64{}
+	valAt := map[int64]int64{}
+	rejected := map[int64]string{}
 	removedAt := map[int64]int{}
 	closed := false
 	started := make([]bool, n)
 	startFront := make([]int64, n)
-	last := make([]int64, n)
+	last := make([]int64, n) // position of the last yielded value
 	cancelled := make([]bool, n)
+	inWindow := make([]bool, n)
 	who := "Queue.Producer"
 	cursor := func(i int) int64 {
 		if last[i] > startFront[i] {
@@ -332,17 +401,24 @@ func queueOracle(c Case, steps []Step) *fail {
 	for t, s := range steps {
 		switch s.Act {
 		case "add":
-			if s.Ob.Kind == "ok" {
+			switch {
+			case s.Ob.Kind == "ok":
 				nAdded++
-			} else if !(closed && s.Ob.Kind == "closed") {
+				posOf[s.V] = nAdded
+				valAt[nAdded] = s.V
+			case s.Ob.Kind == "closed" && closed:
+				rejected[s.V] = "closed"
+			case (s.Ob.Kind == "full" || s.Ob.Kind == "nocredit") && !closed && (c.Opt != "" || c.Kind == "qshared"):
+				rejected[s.V] = s.Ob.Kind
+			default:
 				return &fail{"C20:Queue.Add:unexpected-error", fmt.Sprintf("Add reported %s", s.Ob), t}
 			}
 		case "remove":
 			if s.Ob.Kind == "some" {
 				nRemoved++
-				removedAt[s.Ob.V] = t
-				if s.Ob.V != nRemoved {
-					return &fail{"C20:iterator:destructive", fmt.Sprintf("Remove returned %d, expected %d (an iterator changed the queue?)", s.Ob.V, nRemoved), t}
+				removedAt[nRemoved] = t
+				if posOf[s.Ob.V] != nRemoved {
+					return &fail{"C20:iterator:destructive", fmt.Sprintf("Remove returned %d, expected %d (an iterator changed the queue?)", s.Ob.V, valAt[nRemoved]), t}
 				}
 			} else if nRemoved != nAdded {
 				return &fail{"C20:iterator:destructive", fmt.Sprintf("Remove reported empty with %d items left", nAdded-nRemoved), t}
@@ -355,6 +431,7 @@ func queueOracle(c Case, steps []Step) *fail {
 			closed = true
 		case "cancel":
 			cancelled[s.I] = true
+			inWindow[s.I] = s.Ob.Kind == "inwindow"
 		case "note":
 			return &fail{"C20:harness:note", s.Ob.Msg, t}
 		case "call", "go":
@@ -366,27 +443,32 @@ func queueOracle(c Case, steps []Step) *fail {
 			switch s.Ob.Kind {
 			case "yield":
 				v := s.Ob.V
-				if v < 1 || v > nAdded {
-					return &fail{"C20:iterator:invented", fmt.Sprintf("iterator %d yielded %d, which was never added", i, v), t}
+				pv, ok := posOf[v]
+				if !ok {
+					why := "which was never added"
+					if r, was := rejected[v]; was {
+						why = "whose Add was rejected (" + r + "): it was never in the queue"
+					}
+					return &fail{"C20:iterator:invented", fmt.Sprintf("iterator %d yielded %d, %s", i, v, why), t}
 				}
-				if v <= startFront[i] {
+				if pv <= startFront[i] {
 					return &fail{"C20:iterator:invented", fmt.Sprintf("iterator %d yielded %d, which had left the queue before the iterator started", i, v), t}
 				}
-				if v <= last[i] {
-					return &fail{"C20:" + who + ":duplicate", fmt.Sprintf("iterator %d yielded %d after %d", i, v, last[i]), t}
+				if pv <= last[i] {
+					return &fail{"C20:" + who + ":duplicate", fmt.Sprintf("iterator %d yielded %d after %d", i, v, valAt[last[i]]), t}
 				}
-				for x := cursor(i) + 1; x < v; x++ {
+				for x := cursor(i) + 1; x < pv; x++ {
 					if _, rm := removedAt[x]; !rm {
-						return &fail{"C20:" + who + ":skipped", fmt.Sprintf("iterator %d yielded %d but never yielded %d, which was not removed", i, v, x), t}
+						return &fail{"C20:" + who + ":skipped", fmt.Sprintf("iterator %d yielded %d but never yielded %d, which was not removed", i, v, valAt[x]), t}
 					}
 				}
-				last[i] = v
+				last[i] = pv
 			case "eof", "closed":
 				if !closed {
 					return &fail{"C20:" + who + ":premature-eof", fmt.Sprintf("iterator %d finished (%s) although the queue is not closed", i, s.Ob.Kind), t}
 				}
 				if x := liveUnseen(i); x != 0 {
-					return &fail{"C20:" + who + ":skipped", fmt.Sprintf("iterator %d finished (%s) without yielding %d", i, s.Ob.Kind, x), t}
+					return &fail{"C20:" + who + ":skipped", fmt.Sprintf("iterator %d finished (%s) without yielding %d", i, s.Ob.Kind, valAt[x]), t}
 				}
 			case "ctx":
 				if !cancelled[i] {
@@ -394,13 +476,15 @@ func queueOracle(c Case, steps []Step) *fail {
 				}
 			case "panic":
 				if cursorRemoved(i) {
-					return &fail{"C20:" + who + ":cursor-removed", fmt.Sprintf("iterator %d panicked after the entry it stands on (%d) was removed: %s", i, last[i], s.Ob.Msg), t}
+					return &fail{"C20:" + who + ":cursor-removed", fmt.Sprintf("iterator %d panicked after the entry it stands on (%d) was removed: %s", i, valAt[last[i]], s.Ob.Msg), t}
 				}
 				return &fail{"C20:iterator:panic", fmt.Sprintf("iterator %d panicked: %s", i, s.Ob.Msg), t}
 			case "parked":
 				switch {
 				case closed:
 					return &fail{"C20:" + who + ":no-eof", fmt.Sprintf("iterator %d is still blocked after Close", i), t}
+				case cancelled[i] && inWindow[i]:
+					return &fail{"C20:" + who + ":cancel-lost", fmt.Sprintf("iterator %d: its context ended between its ctx.Done() check and cond.Wait; it is still parked 10s later", i), t}
 				case cancelled[i]:
 					return &fail{"C20:iterator:stuck-after-cancel", fmt.Sprintf("iterator %d is still blocked after its context was cancelled", i), t}
 				}
@@ -411,7 +495,7 @@ func queueOracle(c Case, steps []Step) *fail {
 					} else if c.Kind == "qshared" {
 						cls = "blocked-with-unseen-shared-cond"
 					}
-					return &fail{"C20:" + who + ":" + cls, fmt.Sprintf("iterator %d is blocked at quiescence while item %d is in the queue and unseen (last yielded %d)", i, x, last[i]), t}
+					return &fail{"C20:" + who + ":" + cls, fmt.Sprintf("iterator %d is blocked at quiescence while item %d is in the queue and unseen (last yielded %d)", i, valAt[x], valAt[last[i]]), t}
 				}
 			case "window":
 			case "hung":
@@ -460,6 +544,9 @@ func coqSteps(kind string, steps []Step) string {
 		switch s.Act {
 		case "add":
 			a, o = "QAdd "+kit.Z(s.V), "ObAdd "+kit.Bool(s.Ob.Kind == "ok")
+			if s.Ob.Kind == "full" || s.Ob.Kind == "nocredit" {
+				a = "QAddRej " + kit.Z(s.V) // the tracker's verdict is an input of the model's step
+			}
 		case "pb":
 			a, o = "DPushBack "+kit.Z(s.V), "ObAdd "+kit.Bool(s.Ob.Kind == "ok")
 		case "pf":
@@ -515,7 +602,7 @@ func execCase(run *kit.Run, c Case, verbose bool) {
 		f = runStress(c)
 	}
 	if verbose {
-		fmt.Printf("case %d kind=%s vars=%v init=%d acts=%v fin=%s\n", c.ID, c.Kind, c.Vars, c.Init, c.Acts, c.Fin)
+		fmt.Printf("case %d kind=%s opt=%q vars=%v init=%d acts=%v fin=%s\n", c.ID, c.Kind, c.Opt, c.Vars, c.Init, c.Acts, c.Fin)
 		for t, s := range steps {
 			fmt.Printf("  %2d %s\n", t, s)
 		}
@@ -548,14 +635,14 @@ func execCase(run *kit.Run, c Case, verbose bool) {
 	if c.Kind == "stress" {
 		nontriv = true
 	}
-	run.Count(c.Kind + "/" + strings.Join(c.Vars, "+"))
+	run.Count(c.Kind + c.Opt + "/" + strings.Join(c.Vars, "+"))
 	run.Count(fmt.Sprintf("%s/acts=%d", c.Kind, len(c.Acts)))
 	for _, s := range steps {
 		if s.Act == "call" || s.Act == "go" {
 			run.Count("obs/" + s.Ob.Kind)
 		}
 	}
-	key := fmt.Sprintf("%s|%v|%d|%v|%s|%d|%d", c.Kind, c.Vars, c.Init, c.Acts, c.Fin, c.Sub, c.Seed)
+	key := fmt.Sprintf("%s|%s|%v|%d|%v|%s|%d|%d", c.Kind, c.Opt, c.Vars, c.Init, c.Acts, c.Fin, c.Sub, c.Seed)
 	run.Case(c.ID, c, term, key, nontriv)
 }
 
@@ -591,7 +678,7 @@ func main() {
 	run.Header = "From FunV Require Import Base.Tac Corr.C20_corr."
 	run.Footer = "Definition M := Eval vm_compute in mismatches cases.\nPrint M."
 	run.CaseType = "case"
-	run.Rule = "schedule-directed runs of the real Queue.Producer / Deque.Producer* (1-3 iterators): initial contents 0..3 x every string over {iterator step, Add/Push, Remove/Pop, Close} up to a length bound (iterator steps split at the pubsub.Queue.Producer.unlocked yield point), random longer schedules incl. cancellation and several iterators, the shared-cond scenario, and randomized concurrent stress; distinct = distinct (kind, variants, init, schedule, release mode); non-trivial = some iterator step stopped in the unlocked window or parked"
+	run.Rule = "schedule-directed runs of the real Queue.Producer / Deque.Producer* (1-3 iterators): initial contents 0..3 x every string over {iterator step, Add/Push, Remove/Pop, Close} up to a length bound on unlimited queues/deques and on bounded queues (hard limit 1..3, quota+credit; every Add attempt has its own value, rejected Adds included), cancellation placed between the waiter's ctx check and cond.Wait (yield point pubsub.wait.before-cond-wait) (iterator steps split at the pubsub.Queue.Producer.unlocked yield point), random longer schedules incl. cancellation and several iterators, the shared-cond scenario, and randomized concurrent stress; distinct = distinct (kind, variants, init, schedule, release mode); non-trivial = some iterator step stopped in the unlocked window or parked"
 	pubsub.SetVerifYieldHook(yieldHook)
 
 	if run.Replay != "" {
@@ -647,6 +734,17 @@ func main() {
 		{Kind: "deque", Vars: []string{"fwdb"}, Acts: []string{"I0", "C"}},
 		{Kind: "deque", Vars: []string{"fwdb"}, Acts: []string{"PB", "I0", "I0", "OF", "PB"}},
 		{Kind: "deque", Vars: []string{"fwd", "rev"}, Init: 3, Acts: []string{"I0", "I1", "I0", "I1", "I0", "I1", "I0", "I1"}},
+		// a rejected Add (hard limit / no burst credit) must stay invisible: iterator at the tail, then a later accepted Add
+		{Kind: "queue", Opt: "h1", Vars: Q, Acts: []string{"A", "A", "I0", "I0", "I0", "R", "A", "I0"}},
+		{Kind: "queue", Opt: "h1", Vars: Q, Acts: []string{"A", "I0", "I0", "I0", "A", "R", "A"}},
+		{Kind: "queue", Opt: "h2", Vars: Q, Acts: []string{"A", "A", "I0", "I0", "I0", "A", "I0", "R", "A", "I0"}},
+		{Kind: "queue", Opt: "quota", Vars: Q, Acts: []string{"A", "A", "A", "I0", "I0", "I0", "I0", "R", "R", "A"}},
+		// the context ends between the waiter's ctx.Done() check and cond.Wait
+		{Kind: "queue", Vars: Q, Acts: []string{"I0", "W0"}},
+		{Kind: "queue", Vars: Q, Init: 1, Acts: []string{"I0", "I0", "W0"}},
+		{Kind: "deque", Vars: []string{"fwdb"}, Acts: []string{"W0"}},
+		{Kind: "deque", Vars: []string{"revb"}, Init: 1, Acts: []string{"I0", "W0"}},
+		{Kind: "deque", Vars: []string{"fwdb", "fwdb"}, Init: 1, Acts: []string{"I0", "I1", "I1", "W0"}},
 	}
 	for _, c := range corpus {
 		emit(c)
@@ -658,6 +756,14 @@ func main() {
 		enumerate(qAlpha, run.Pick(5, 7), func(acts []string) {
 			emit(Case{Kind: "queue", Vars: Q, Init: init, Acts: acts})
 		})
+	}
+	// bounded queues: rejected Adds interleaved at every segment boundary
+	for _, opt := range []string{"h1", "h2", "h3", "quota"} {
+		for init := 0; init <= 2; init++ {
+			enumerate(qAlpha, run.Pick(4, 6), func(acts []string) {
+				emit(Case{Kind: "queue", Opt: opt, Vars: Q, Init: init, Acts: acts})
+			})
+		}
 	}
 	dAlpha := []string{"I0", "PB", "PF", "OF", "OB", "C"}
 	for _, v := range []string{"fwd", "rev", "fwdb", "revb"} {
@@ -685,7 +791,14 @@ func main() {
 		if r.Chance(1, 3) {
 			alpha = append(alpha, "X"+strconv.Itoa(r.Intn(ni)))
 		}
-		emit(Case{Kind: "queue", Vars: vars, Init: r.Intn(4), Acts: randActs(r, alpha, 4, 14)})
+		if r.Chance(1, 3) {
+			alpha = append(alpha, "W"+strconv.Itoa(r.Intn(ni)))
+		}
+		opt := ""
+		if r.Chance(1, 2) {
+			opt = []string{"h1", "h2", "h3", "quota"}[r.Intn(4)]
+		}
+		emit(Case{Kind: "queue", Opt: opt, Vars: vars, Init: r.Intn(4), Acts: randActs(r, alpha, 4, 14)})
 	}
 	nd := run.Pick(700, 20000)
 	dv := []string{"fwd", "rev", "fwdb", "revb"}
@@ -706,6 +819,9 @@ func main() {
 		}
 		if r.Chance(1, 3) {
 			alpha = append(alpha, "X"+strconv.Itoa(r.Intn(ni)))
+		}
+		if r.Chance(1, 3) {
+			alpha = append(alpha, "W"+strconv.Itoa(r.Intn(ni)))
 		}
 		emit(Case{Kind: "deque", Vars: vars, Init: r.Intn(4), Acts: randActs(r, alpha, 4, 14)})
 	}
